@@ -702,10 +702,12 @@ def addAnswerOfService (known : List Wire.Rec) (qname : BList) (qtype : Nat) (sv
         { name := svc.host, ty := addrType ip, flush := true, ttl := TTL_HOST, rdata := addrRData ip } }
   else r2
 
-/-- the instance-name part of a non-PTR question -/
+/-- the instance-name part of a non-PTR question: the service whose CURRENT name (the name as
+    registered, resolved through `name_changes`; repair of D39: it was the lower-case key that was
+    resolved) is the question's name, compared in lower case -/
 def answerInstance (known : List Wire.Rec) (services : List (BList × Service)) (i : MyIntf) (reg : Registry)
     (v4 : Bool) (qname : BList) (qtype : Nat) (r : Resp) : Resp :=
-  match services.find? (fun e => reg.resolveName e.1 == lower qname) with
+  match services.find? (fun e => lower (reg.resolveName e.2.fullname) == lower qname) with
   | none => r
   | some (_, svc) =>
     if !svc.announcedOn i.index then r
@@ -799,8 +801,9 @@ def setSrvHost (host : BList) (r : RR) : RR :=
   | _ => r
 
 /-- `DnsRegistry::update_hostname`: every SRV (probing or active) that points to `original`
-    is taken out, re-targeted and put into the probe of its own name, which restarts at
-    `probeTime`; returns whether a probe was created -/
+    is taken out, re-targeted and put into the probe of its own name, which starts over at
+    `probeTime` (start and next send: repair of D41, `next_send` used to stay); returns whether
+    a timer is to be armed for `probeTime` -/
 def updateHostname (reg : Registry) (original newName : BList) (probeTime : Nat) : Registry × Bool :=
   let found := (reg.probing.flatMap fun (_, p) => p.records.filter (isSrvTo original)) ++
                (reg.active.flatMap fun (_, rs) => rs.filter (isSrvTo original))
@@ -810,7 +813,7 @@ def updateHostname (reg : Registry) (original newName : BList) (probeTime : Nat)
   found.foldl (fun (acc : Registry × Bool) rec =>
     let rec' := setSrvHost newName rec
     match alookup rec'.getName acc.1.probing with
-    | some p => ({ acc.1 with probing := aset rec'.getName { p with start := probeTime, records := insertRR rec' p.records } acc.1.probing }, acc.2)
+    | some p => ({ acc.1 with probing := aset rec'.getName { p with start := probeTime, next := probeTime, records := insertRR rec' p.records } acc.1.probing }, true)
     | none => ({ acc.1 with probing := aset rec'.getName { Probe.new probeTime with records := [rec'] } acc.1.probing }, true))
     (reg1, false)
 
